@@ -25,6 +25,10 @@ func main() {
 	for v, proto := range []int{2, 4, 2, 5} {
 		hs = append(hs, c01lib.CoalCancelHist(len(hs), proto, v+1))
 	}
+	// the direct writer's select with both the context and the free semaphore ready: 48 requests per history
+	for _, proto := range []int{4, 2, 3} {
+		hs = append(hs, c01lib.CancelInBuildHist(len(hs), proto, 48))
+	}
 	for v, proto := range []int{2, 4, 2} {
 		hs = append(hs, c01lib.WriteStallCancelHist(len(hs), proto, v+1, v != 2))
 	}
